@@ -16,7 +16,7 @@ TRUST_SYS = TRUST + ("MockProvider flavours are the environment (bound to the pr
                      "are listed findings (known_findings.json), clean strata are strict.")
 
 CHECKS = {
- "C01": dict(ready=False, engine="sys", design_ref="DESIGN.md 3.6-3.8, 6 (C01), 13",
+ "C01": dict(ready=True, engine="sys", design_ref="DESIGN.md 3.6-3.8, 6 (C01), 13",
    text=SYS + "C01: Converged at every quiet report, ReachesQuiet within the step bound, NoEscape, StaysQuiet; families: all two-sided histories "
         "(conflicting and not) of 2 operations exhaustively, 3-5 by slices/simulation, 2-4 flavours; family `mid`: the last user operation is performed INSIDE a sync step, "
         "right after the k-th provider call (k = 1..4) the engine makes. Design level: SysMC.tla (abstract engine constrained by the contract guards).",
